@@ -326,6 +326,9 @@ class Program:
                     raise AnalysisIncomplete('cannot parse %s: %s' % (rel, e))
         for m_ in self.modules.values():
             m_.funcs._prog = self
+        if os.environ.get('XRSA_NO_NORMALFORM', '0') != '1':
+            from .normalform import mark_module_constants
+            self.constants_marked = mark_module_constants(self.modules)      # N2: literals held in module-level names
         self._classify_decorators()
         if os.environ.get('XRSA_PUBVIEW', '0') == '1':      # experiment only: see DESIGN §9
             self._public_views()
